@@ -177,7 +177,12 @@ def read_state(pas, spec, data):
                         es.append(0)
                         continue
                     f = Fraction(v).limit_denominator(1000)
-                    e = abs(Fraction(v) - f) / Fraction(math.ulp(v))
+                    # distance in ulp, of the value or of 1.0 if that is
+                    # larger: a sum of non-dyadic rationals that cancels
+                    # exactly leaves a rounding residue (1e-17) whose own
+                    # ulp says nothing about the size of the terms
+                    e = abs(Fraction(v) - f) / Fraction(
+                        max(math.ulp(v), math.ulp(1.0)))
                     vals.append([f.numerator, f.denominator])
                     es.append(int(min(math.ceil(e), 10 ** 9)))
                 p[nm] = vals
